@@ -193,7 +193,16 @@ pub fn check(o: &CheckOpts) -> i32 {
                     capped.store(true, Ordering::SeqCst);
                     break;
                 }
-                let out = run_one(seed, i, &prof, enabled, i < 3);
+                let out = match std::panic::catch_unwind(std::panic::AssertUnwindSafe(|| run_one(seed, i, &prof, enabled, i < 3))) {
+                    Ok(o) => o,
+                    Err(_) => {
+                        eprintln!(
+                            "HARNESS-ERROR: the simulator itself panicked in run {} of seed {} (property {}); re-run with DSIM_PANIC=1 --jobs 1 to see where",
+                            i, seed, prop
+                        );
+                        std::panic::resume_unwind(Box::new("harness"));
+                    }
+                };
                 cov.merge(&out.cov);
                 if i < 3 {
                     for s in out.samples {
@@ -317,6 +326,7 @@ pub fn check(o: &CheckOpts) -> i32 {
             "runs_per_hour": if wall > 0.0 { (runs_done as f64 / wall * 3600.0).round() } else { 0.0 },
             "delivered_steps": cov.steps,
             "simulated_blocks": cov.blocks,
+            "simulated_time_s": cov.blocks * 5,
             "instantiate_cases": cov.instantiate_cases,
             "history_steps": cov.steps,
             "requests_by_kind_delivered_accepted_refused": cov.kinds,
